@@ -188,13 +188,19 @@ def check_tags_multi(case):
     with H.tempdir() as d:
         base = read_top(d)
         for (a1, b1), (a2, b2) in itertools.product([(0, 4), (3, 5), (0, 1)], [(3, 5), (4, 5), (0, 4)]):
-            text = (f"[ molecule ]\nCH4 {a1} {b1}\n[ sphere ]\nS 1 4 in 1.0 2.0 3.0 4.5\n"
-                    f"[ molecule ]\nCH4 {a2} {b2}\n[ rectangle ]\nS 3 4 out 1.0 1.0 1.0 0.5 0.5 0.5\n")
+          for two_files in (False, True):
+            part1 = f"[ molecule ]\nCH4 {a1} {b1}\n[ sphere ]\nS 1 4 in 1.0 2.0 3.0 4.5\n"
+            part2 = f"[ molecule ]\nCH4 {a2} {b2}\n[ rectangle ]\nS 3 4 out 1.0 1.0 1.0 0.5 0.5 0.5\n"
+            text = part1 + part2
             top = copy.deepcopy(base)
             evals += 1
-            case1 = dict(kind="tagsm1", text=text)
+            case1 = dict(kind="tagsm1", text=text, two_files=two_files)
             try:
-                read_build_file(text.splitlines(), top, top.molecules)
+                if two_files:      # the two blocks in two build files read one after the other (-b a.bld b.bld)
+                    read_build_file(part1.splitlines(), top, top.molecules)
+                    read_build_file(part2.splitlines(), top, top.molecules)
+                else:
+                    read_build_file(text.splitlines(), top, top.molecules)
             except Exception as exc:  # noqa
                 viols.append(crash_violation(exc, case1, assertion="build-file-readable"))
                 continue
@@ -209,7 +215,7 @@ def check_tags_multi(case):
                     if sorted(got) != sorted(want):
                         viols.append(dict(assertion="tag-selects-exactly-named-range", tags=["multi-block"],
                                           message=f"{text!r}: molecule {mi} residue {resid} has {got} expected {want}", case=case1, detail={}))
-            keys.append(f"multi:{a1}:{b1}:{a2}:{b2}")
+            keys.append(f"multi:{a1}:{b1}:{a2}:{b2}:{two_files}")
         # several directive kinds inside one [ molecule ] block, in both orders, for both molecule names
         kinds = {"sphere": ("[ sphere ]\n{rn} {s} {t} in 1.0 2.0 3.0 4.5\n", "restraints"),
                  "rw": ("[ rw_restriction ]\n{rn} {s} {t} 1.0 0.0 0.0 60.0\n", "rw_options"),
